@@ -345,3 +345,142 @@ func TestC09EncodingCounters(t *testing.T) {
 		return x
 	})
 }
+
+// TestC09ResendAliases: the retransmission after a resume next to acks that assign data id aliases (seeded change C09-7).
+// Chunks full of data ids the broker has not aliased yet stay unacknowledged (acks withheld); the link is killed; on the
+// new link the broker acknowledges every retransmitted chunk at once and each of those acks hands out aliases for the
+// ids of that chunk - so the stream's alias tables are written by the ack dispatcher while the retransmission is still
+// converting the next stored chunks. Writers with fresh ids and State() pollers run next to it.
+func TestC09ResendAliases(t *testing.T) {
+	e := vrun.LoadEnv()
+	meta := vrun.Meta{Property: "C09", Workload: "TestC09ResendAliases", Total: e.Pick(40, 600),
+		Rule: "race-detector build, real parallelism: a reliable upstream cuts 5-24 chunks of 40-600 data ids each that the broker has not aliased, acks withheld; the link is killed (severed or failing writes); after the resume the broker acknowledges every retransmitted chunk immediately, each ack assigning aliases to that chunk's ids, while 1-3 writers add up to 30 chunks with fresh ids each and a poller reads State(); then Close. The oracle is the Go race detector; non-trivial = the stream resumed on a second link, at least two chunks were retransmitted there and at least two acks on that link carried alias assignments; distinct = (chunks, ids per chunk, failure mode, writers)"}
+	vrun.Loop(t, meta, 4, func(c *vrun.Case) vrun.Result {
+		var res vrun.Result
+		ok, dump := vrun.Watchdog(120*time.Second, func() { res = runResendAliases(c) })
+		if !ok {
+			res = vrun.WatchdogVerdict("the case never finished")
+			if res.Verdict == vrun.Inconclusive {
+				res.Witness = map[string]any{"dump_head": dump[:min(len(dump), 3000)]}
+			}
+		}
+		return res
+	})
+}
+
+func runResendAliases(c *vrun.Case) vrun.Result {
+	r := c.Rng
+	w := world.New()
+	defer w.Close()
+	w.B.P.Alias = broker.AliasAfterNth
+	w.B.P.AliasN = 2 // an id is aliased when it is seen in full form for the second time: in the retransmitted chunk
+	w.B.P.Ack = broker.AckWithhold
+	w.Start()
+	conn, err := w.Connect(iscp.WithConnPingInterval(50*time.Millisecond), iscp.WithConnPingTimeout(time.Second))
+	if err != nil {
+		return vrun.Inconcl("connect: " + err.Error())
+	}
+	bg := context.Background()
+	call := func(d time.Duration) (context.Context, context.CancelFunc) { return context.WithTimeout(bg, d) }
+	N := 5 + r.Intn(20)
+	M := 40 + r.Intn(561)
+	W := 1 + r.Intn(3)
+	modes := []memnet.Mode{memnet.Sever, memnet.WFail}
+	mi := r.Intn(len(modes))
+	ctx, cancel := call(5 * time.Second)
+	up, err := conn.OpenUpstream(ctx, "resend", iscp.WithUpstreamQoS(message.QoSReliable), iscp.WithUpstreamFlushPolicyNone(), iscp.WithUpstreamCloseTimeout(2*time.Second))
+	cancel()
+	if err != nil {
+		conn.Close(bg)
+		return vrun.Inconcl("open: " + err.Error())
+	}
+	for k := 0; k < N; k++ {
+		ctx, cancel := call(2 * time.Second)
+		for j := 0; j < M; j++ {
+			up.WriteDataPoints(ctx, &message.DataID{Name: fmt.Sprintf("c%d-i%d", k, j), Type: "t"}, &message.DataPoint{ElapsedTime: time.Duration(k*M + j), Payload: []byte("p")})
+		}
+		up.Flush(ctx)
+		cancel()
+	}
+	first := w.Net.Current()
+	w.B.Lock()
+	w.B.P.Ack = broker.AckImmediate
+	w.B.Unlock()
+	stop := make(chan struct{})
+	var wg sync.WaitGroup
+	for g := 0; g < W; g++ {
+		wg.Add(1)
+		go func(g int) {
+			defer wg.Done()
+			for k := 0; k < 30; k++ { // bounded: the broker looks at every id it has seen whenever it acknowledges
+				select {
+				case <-stop:
+					return
+				default:
+				}
+				ctx, cancel := call(300 * time.Millisecond)
+				for j := 0; j < 20; j++ {
+					up.WriteDataPoints(ctx, &message.DataID{Name: fmt.Sprintf("w%d-%d-%d", g, k, j), Type: "t"}, &message.DataPoint{ElapsedTime: time.Duration(k), Payload: []byte("q")})
+				}
+				up.Flush(ctx)
+				cancel()
+				time.Sleep(time.Millisecond)
+			}
+		}(g)
+	}
+	wg.Add(1)
+	go func() {
+		defer wg.Done()
+		for {
+			select {
+			case <-stop:
+				return
+			default:
+			}
+			_ = up.State()
+			time.Sleep(100 * time.Microsecond)
+		}
+	}()
+	if first != nil {
+		first.Fail(modes[mi])
+	}
+	// wait (bounded) until the broker has acknowledged the N withheld chunks on a later link
+	resent, aliasAcks := 0, 0
+	deadline := time.Now().Add(5 * time.Second)
+	for time.Now().Before(deadline) {
+		resent, aliasAcks = 0, 0
+		ups := w.B.Ups()
+		w.B.Lock()
+		for _, us := range ups {
+			for _, ch := range us.Chunks {
+				if first != nil && ch.Link != first.ID && ch.Seq <= uint32(N) {
+					resent++
+				}
+			}
+			for _, a := range us.AcksSent {
+				if first != nil && a.Link != first.ID && len(a.Aliases) > 0 {
+					aliasAcks++
+				}
+			}
+		}
+		w.B.Unlock()
+		if resent >= N {
+			break
+		}
+		time.Sleep(2 * time.Millisecond)
+	}
+	time.Sleep(5 * time.Millisecond)
+	close(stop)
+	wg.Wait()
+	ctx, cancel = call(3 * time.Second)
+	up.Close(ctx)
+	cancel()
+	ctx, cancel = call(2 * time.Second)
+	conn.Close(ctx)
+	cancel()
+	x := vrun.Hold(fmt.Sprintf("%d|%d|%d|%d", N, M, mi, W), len(w.Net.Links()) >= 2 && resent >= 2 && aliasAcks >= 2)
+	x.Desc = map[string]any{"withheld_chunks": N, "ids_per_chunk": M, "failure_mode": mi, "writers": W, "retransmitted_on_later_links": resent, "acks_with_aliases_on_later_links": aliasAcks, "links": len(w.Net.Links())}
+	x.Stat("retransmitted_chunks", int64(resent))
+	x.Stat("acks_with_alias_assignments", int64(aliasAcks))
+	return x
+}
